@@ -27,6 +27,10 @@
 #include "unpacked_node.h"
 #include "rel_node.h"
 #include "policies.h"
+#ifdef MEDDLY_VERIF
+#include "verif_hooks.h"
+#include <utility>
+#endif
 #include "rangeval.h"
 #include "domain.h"
 #include "statset.h"
@@ -1606,6 +1610,18 @@ class MEDDLY::forest {
 
         /// Mark all registered dd_edges.
         void markAllRoots();
+
+#ifdef MEDDLY_VERIF
+        /// Verification hook: list (node, edge value) of every registered
+        /// dd_edge, user-held or not, in registry order.
+        void verifRoots(std::vector< std::pair<node_handle, edge_value> > &R)
+            const;
+
+        /// Verification hook: cache count of a nonterminal node.
+        inline unsigned long verifCacheCount(node_handle p) const {
+            return nodeHeaders.getNodeCacheCount(p);
+        }
+#endif
 
     // ------------------------------------------------------------
     private: // Private methods for root edge registry
